@@ -73,7 +73,8 @@ func mkResult(r Res) *benchfmt.Result {
 // reference numeric reading of values (only for unambiguous spellings)
 
 var sufRe = regexp.MustCompile(`^([0-9]+(?:\.[0-9]*)?|\.[0-9]+)([kKMGTPEZY]i?)?[bB]?$`)
-var wordRe = regexp.MustCompile(`^[^0-9.]+$`)
+// a text without any digit is not a number (the spellings of infinity and NaN are recognised before)
+var wordRe = regexp.MustCompile(`^[^0-9]+$`)
 
 // numClass: 1 = number (val set; nan for NaN), 2 = non-number, 0 = ambiguous
 func numClass(s string) (class int, val *big.Rat, nan bool, inf int) {
@@ -486,7 +487,9 @@ var numUnamb = []string{"12", "1.5", "2k", "1Mi", "3GiB", "1e3", "NaN", "inf", "
 	"2G", "3T", "1P", "2E", "1Z", "2Y", "1Ti", "2Pi", "1Ei", "2EiB", "1Zi", "2ZiB", "1Yi", "3YiB", "1.5Gi", "999Zi", "1e30", "1e21", ".5k", ".25Mi", "5.k", ".5", "0.5k", "400", "200Ki", "5000",
 	// plain numbers that need more than 24 bits, or more than float32's range, to tell apart
 	"010", "016", "0100", "070", "15", "70", "08", "0x10", "1_000",
-	"99999999", "100000001", "16777217", "16777216", "1e39", "2e38", "9007199254740993", "123456789.5", "33554433"}
+	"99999999", "100000001", "16777217", "16777216", "1e39", "2e38", "9007199254740993", "123456789.5", "33554433",
+	// no digit at all: not numbers, whatever dots and signs they contain
+	"...", "N.A.", ".", "-.", "..", "a.b", "-", "+", "e", ".k", "kB", "Ki"}
 var numArb = []string{"x1", "1k2", "..", "1m", "v2.0", "1.2.3", "k", "0x10", "1_0", "٣"}
 var wordVals = []string{"linux", "darwin", "b", "a", "c", "Z", "é", "aa", "B"}
 
